@@ -62,6 +62,26 @@ def run(tier: str, seed: int, reg: Any, jobs: int = 16) -> list:
                               "obligation": "otfad-hardware-decrypts", "known_id": known})
     out = [{"name": "OTFAD per-block hardware model", "function": "spsdk.utils.crypto.otfad:Otfad.encrypt_image", "method": "seeded blobs/bases/images",
             "bound": f"{n} images", "cases": n, "label": "bounded", "failures": fails}]
+    # one key blob used directly (the way the BD `encrypt (id) { load file > address; }` statement does): data placed anywhere inside the blob
+    fails1 = []
+    n1 = 0
+    for _ in range(30 if tier == "quick" else 1500):
+        start = rnd.randrange(0, 64) * 0x400
+        end = start + rnd.randrange(2, 9) * 0x400 - 1
+        key, ctr = bytes(rnd.getrandbits(8) for _ in range(16)), bytes(rnd.getrandbits(8) for _ in range(8))
+        base = start + rnd.choice([0, 0, 0x10, 0x400, rnd.randrange(0, 0x40) * 0x10])
+        img = bytes(rnd.getrandbits(8) for _ in range(rnd.choice([16, 512, 1024])))
+        n1 += 1
+        try:
+            enc = KeyBlob(start_addr=start, end_addr=end, key=key, counter_iv=ctr).encrypt_image(base, img, False)
+            ok = len(enc) == len(img) and otfad_hw(enc, base, [(start, end, key, ctr)]) == img
+            detail = f"blob {start:#x}..{end:#x}, data at {base:#x}: hardware model does not restore the plaintext"
+        except Exception as e:  # pylint: disable=broad-except
+            ok, detail = False, f"{type(e).__name__}: {e}"
+        if not ok and len(fails1) < 4:
+            fails1.append({"inputs": {"blob": (start, end), "base": base, "image_len": len(img)}, "detail": detail, "obligation": "otfad-key-blob-encrypts-by-absolute-address"})
+    out.append({"name": "one OTFAD key blob, data anywhere inside it", "function": "spsdk.utils.crypto.otfad:KeyBlob.encrypt_image", "method": "seeded blob / base / data; per-block hardware model",
+                "bound": f"{n1} images", "cases": n1, "label": "bounded", "failures": fails1})
     # BEE: FAC regions in every order; blocks inside the window [min start, max end) are AES-CTR encrypted per 16 bytes
     fails2 = []
     m = 0
